@@ -9,23 +9,27 @@ import (
 // Reg gives a freshly allocated pointer / channel / map a deterministic sequence number, so that
 // anything ordered by object identity (map iteration over pointer keys) is reproducible.
 func Reg[T any](x T) T {
+	regAny(x)
+	return x
+}
+
+func regAny(x any) {
 	s := S
 	if s == nil {
-		return x
+		return
 	}
 	v := reflect.ValueOf(x)
 	switch v.Kind() {
 	case reflect.Pointer, reflect.Chan, reflect.Map, reflect.UnsafePointer:
 		p := v.Pointer()
 		if p != 0 {
-			if _, ok := s.reg[p]; !ok {
+			if _, ok := s.reg.get(uint64(p)); !ok {
 				s.regSeq++
-				s.reg[p] = s.regSeq
-				s.regKeep = append(s.regKeep, x) // keep alive: the address must not be reused in this run
+				s.reg.put(uint64(p), s.regSeq)
+				s.regKeep = push(s.regKeep, x) // keep alive: the address must not be reused in this run
 			}
 		}
 	}
-	return x
 }
 
 // ObjID returns the registered sequence number of a pointer-like value (0 if unregistered).
@@ -37,9 +41,11 @@ func ObjID(x any) int {
 	v := reflect.ValueOf(x)
 	switch v.Kind() {
 	case reflect.Pointer, reflect.Chan, reflect.Map, reflect.UnsafePointer:
-		return s.reg[v.Pointer()]
+		id, _ := s.reg.get(uint64(v.Pointer()))
+		return id
 	case reflect.Uintptr:
-		return s.reg[uintptr(v.Uint())]
+		id, _ := s.reg.get(v.Uint())
+		return id
 	}
 	return 0
 }
@@ -56,13 +62,13 @@ func rankOf(s *Sim, v reflect.Value) keyRank {
 	}
 	switch v.Kind() {
 	case reflect.Pointer, reflect.Chan, reflect.Map, reflect.UnsafePointer:
-		if id, ok := s.reg[v.Pointer()]; ok {
+		if id, ok := s.reg.get(uint64(v.Pointer())); ok {
 			return keyRank{0, int64(id), ""}
 		}
-		s.anoms["unregistered_map_key"]++
+		s.anoms.add("unregistered_map_key", 1)
 		return keyRank{3, 0, v.Type().String()}
 	case reflect.Uintptr:
-		if id, ok := s.reg[uintptr(v.Uint())]; ok {
+		if id, ok := s.reg.get(v.Uint()); ok {
 			return keyRank{0, int64(id), ""}
 		}
 		return keyRank{1, int64(v.Uint()), ""}
@@ -89,15 +95,35 @@ func MapKeys[M ~map[K]V, K comparable, V any](m M) []K {
 	for k := range m {
 		keys = append(keys, k)
 	}
-	s := S
-	if s == nil || len(keys) < 2 {
+	if len(keys) < 2 {
 		return keys
 	}
-	ranks := make([]keyRank, len(keys))
-	for i, k := range keys {
-		ranks[i] = rankOf(s, reflect.ValueOf(&k).Elem())
+	vals := make([]reflect.Value, len(keys))
+	for i := range keys {
+		vals[i] = reflect.ValueOf(&keys[i]).Elem()
 	}
-	idx := make([]int, len(keys))
+	perm := orderKeys(vals)
+	if perm == nil {
+		return keys
+	}
+	out := make([]K, len(keys))
+	for i, j := range perm {
+		out[i] = keys[j]
+	}
+	return out
+}
+
+// orderKeys returns the seeded iteration order as a permutation of indices (nil = keep).
+func orderKeys(vals []reflect.Value) []int {
+	s := S
+	if s == nil {
+		return nil
+	}
+	ranks := make([]keyRank, len(vals))
+	for i, v := range vals {
+		ranks[i] = rankOf(s, v)
+	}
+	idx := make([]int, len(vals))
 	for i := range idx {
 		idx[i] = i
 	}
@@ -112,15 +138,15 @@ func MapKeys[M ~map[K]V, K comparable, V any](m M) []K {
 		return x.s < y.s
 	})
 	// seeded order: a rotation plus optional reversal reaches every "which comes first" outcome
-	n := len(keys)
+	n := len(vals)
 	c := s.Sched.choose(2*n, nil)
-	out := make([]K, n)
+	out := make([]int, n)
 	for i := 0; i < n; i++ {
 		j := (c/2 + i) % n
 		if c%2 == 1 {
 			j = (c/2 + n - i) % n
 		}
-		out[i] = keys[idx[j]]
+		out[i] = idx[j]
 	}
 	return out
 }
